@@ -92,8 +92,35 @@ def replay_entry(ctx, drv, rec, info):
     return one_run(ctx, drv, cfg, ch, rec.get("mode", "access"), info)
 
 
+class Deadline(Exception):
+    pass
+
+
+def arm_deadline(ctx, seconds):
+    """Global wall-clock deadline of the whole check: whatever hangs, the main thread gets an exception, vlib
+    turns it into a broken obligation and reports what was found so far."""
+    import signal
+
+    def on_alarm(signum, frame):
+        raise Deadline(f"C18 global deadline of {seconds} s reached ({ctx.tier})")
+
+    signal.signal(signal.SIGALRM, on_alarm)
+    signal.setitimer(signal.ITIMER_REAL, seconds)
+
+
+def too_many_leaks(ctx):
+    if hs.LEAKED > 30:
+        msg = (f"{hs.LEAKED} threads were left blocked in waits the scheduler cannot see (un-patched blocking "
+               f"primitive in the hub): exploration stopped early")
+        if msg not in ctx.notes:
+            ctx.notes.append(msg)
+        return True
+    return False
+
+
 def run(ctx):
     quick = ctx.tier == "quick"
+    arm_deadline(ctx, 330 if quick else 1750)
     ctx.rule = ("configurations: 2-4 threads over 1-3 endpoint pairs (families pair, paircb = callback endpoints, twosock, "
                 "threenode, reinc = a later endpoint re-using a key, switch = the receiver flips use_callbacks on its connected socket while the peer sends, reconn = a (callback) receiver that stays connected while the sender disconnects, reconnects with the same socket id and sends again, lone = no peer, shared = two threads on one key), "
                 "<= 4 send/recv/recv-nonblocking ops between connect and optional disconnect; each is run on the real "
@@ -173,7 +200,7 @@ def run(ctx):
     t_start = time.time()
     rng = ctx.rng
     for c in range(n_cfg):
-        if time.time() - t_start > t_budget:
+        if time.time() - t_start > t_budget or too_many_leaks(ctx):
             ctx.notes.append(f"time budget reached after {c} configurations")
             break
         family, cfg = hc.gen_cfg(rng)
@@ -193,6 +220,8 @@ def run(ctx):
         oset = {hc.okey(o) for o, _ in outs} if outs is not None else None
         seen_outcomes = set()
         for s in range(n_sched):
+            if time.time() - t_start > t_budget + 15 or too_many_leaks(ctx):
+                break
             kind = rng.random()
             if kind < 0.6:
                 p = rng.choice([0.03, 0.1, 0.3, 0.7])
@@ -218,6 +247,8 @@ def run(ctx):
         # completeness direction: model outcomes replayed on the implementation
         if outs is not None and (not quick or len(outs) <= 6):
             for o, wsched in outs:
+                if time.time() - t_start > t_budget + 25 or too_many_leaks(ctx):
+                    break
                 if hc.okey(o) in seen_outcomes:
                     cov["model_outcomes_reproduced"] += 1
                     continue
@@ -239,11 +270,13 @@ def run(ctx):
     cov["bcast_blocked_runs"] = 0
     t_bc = time.time()
     for c in range(n_bc):
-        if time.time() - t_bc > (20 if quick else 150):
+        if time.time() - t_bc > (20 if quick else 150) or too_many_leaks(ctx):
             ctx.notes.append(f"broadcast time budget reached after {c} configurations")
             break
         shape, cfg = hc.gen_bcast(rng)
         for s in range(n_bs):
+            if time.time() - t_bc > (30 if quick else 170) or too_many_leaks(ctx):
+                break
             if rng.random() < 0.6:
                 pp = rng.choice([0.03, 0.1, 0.3, 0.7])
                 ch, info = hs.random_chooser(rng, pp), dict(chooser="random", p=pp)
@@ -324,10 +357,13 @@ def search(ctx, drv, reps):
     property itself fails (more schedules on the differing configurations, high pre-emption,
     plus the corpus schedules)."""
     rng = ctx.rng
+    t_search = time.time()
     for rep in reps:
         cfg = rep["cfg"]
         drv.set_cfg(cfg)
         for i in range(150):
+            if time.time() - t_search > 40 or too_many_leaks(ctx):
+                return False
             ch = hs.random_chooser(rng, rng.choice([0.3, 0.6, 0.9])) if i % 2 else hs.pct_chooser(rng, len(cfg), rng.randint(2, 6), 120)
             r = hc.run_impl(cfg, ch, mode="line")
             bad = hc.oracle(r, cfg)
@@ -340,6 +376,7 @@ def search(ctx, drv, reps):
 
 
 def replay(ctx, path):
+    arm_deadline(ctx, 300)
     rec = json.load(open(path))
     rec = rec.get("replay", rec)
     if rec.get("kind") == "bcast":
